@@ -17,7 +17,7 @@ class SecondSubscriptionDiffers(Exception):
     """Reported through sink.error: the same observable, subscribed again, did not behave as the first time."""
 
 
-def twice(obs, n_inputs, limit=3):
+def twice(obs, n_inputs, limit=3, same=None):
     """Subscribe `obs`; for short inputs subscribe it a second time and turn a different outcome into sink.error
     (every check already reports an unexpected error together with its repr)."""
     sink = RawSink()
@@ -25,15 +25,17 @@ def twice(obs, n_inputs, limit=3):
     if n_inputs <= limit and sink.error is None:
         again = RawSink()
         again.subscribe_to(obs)
-        if repr(again.items) != repr(sink.items) or again.completed != sink.completed or again.error is not None:
+        if (not same(sink.items, again.items) if same else repr(again.items) != repr(sink.items)) or again.completed != sink.completed or again.error is not None:
             sink.error = SecondSubscriptionDiffers('first: %r completed=%r; second: %r completed=%r error=%r' % (
                 sink.items[:6], sink.completed, again.items[:6], again.completed, again.error))
     return sink
 
 
-def run(ops, chunks):
+def run(ops, chunks, same=None):
+    """same(items_a, items_b): when two runs of the operator need not emit identical items (compressed bytes), the
+    equivalence to use instead."""
     chunks = list(chunks)
-    sink = twice(rx.from_(chunks).pipe(*ops), len(chunks))
+    sink = twice(rx.from_(chunks).pipe(*ops), len(chunks), same=same)
     if len(chunks) <= 3 and sink.error is None:
         # two subscribers of the same observable at the same time (a hot source): each gets what a lone subscriber gets
         from rx.subject import Subject
@@ -46,7 +48,7 @@ def run(ops, chunks):
             src.on_next(c)
         src.on_completed()
         for name, s in (('first', a), ('second', b)):
-            if repr(s.items) != repr(sink.items) or s.completed != sink.completed or s.error is not None:
+            if (not same(sink.items, s.items) if same else repr(s.items) != repr(sink.items)) or s.completed != sink.completed or s.error is not None:
                 sink.error = SecondSubscriptionDiffers('two overlapping subscriptions: the %s one got %r completed=%r error=%r; a lone subscriber gets %r' % (
                     name, s.items[:6], s.completed, s.error, sink.items[:6]))
                 break
